@@ -92,9 +92,14 @@ def sub_vcurve(case):
 def sub_lcgrid(case):
     y = np.array(case["y"], dtype="int16")
     valid = np.array(case["valid"], dtype=bool)
-    nd = int(case["nodata"])
+    nd = case["nodata"]
     yy = y.copy()
-    yy[~valid] = nd
+    if isinstance(nd, str) or float(nd) != int(float(nd)) or not -32768 <= float(nd) <= 32767:
+        nd = float(nd)  # a nodata value no int16 cell can hold (uint16 fill value, NaN, fraction): every cell is an observation
+        assert valid.all()
+    else:
+        nd = int(nd)
+        yy[~valid] = nd
     lc = float(case["lc"])
     p = float(case["p"])
     out, lopt = smooth.run_variant("optvplc", yy, nd, {"p": p, "lc": lc})
@@ -204,6 +209,14 @@ def vcase(draw, nmax, lc=False):
     if lc:
         case["lc"] = draw(LCS)
         case["p"] = draw(gens.pvals)
+        if draw(st.integers(0, 7)) == 0:
+            # gap-free int16 series with a nodata value outside what int16 can hold; the series contains the values such a number
+            # turns into when it is forced into int16
+            y = list(s["y"])
+            for i in draw(st.lists(st.integers(0, n - 1), min_size=1, max_size=min(n, 4), unique=True)):
+                y[i] = draw(st.sampled_from([-1, 0, -1, 0, 1, -25536, 5536]))
+            case.update(y=y, valid=[True] * n, gcls="none_offdomain_nodata",
+                        nodata=draw(st.sampled_from([65535.0, "NaN", 0.5, -0.5, 40000.0, -60000.0, 65536.0])))
     else:
         case["sr"] = draw(gens.srange(min_count=3, lo=-4.0, hi=6.0))
         if draw(st.booleans()):
